@@ -220,6 +220,9 @@ func (b *BlockWise[C]) Do(r *pool.Message, maxSzx SZX, maxMessageSize uint32, do
 		return nil, errors.New("invalid token")
 	}
 	defer b.sendingMessagesCache.Delete(r.Token().Hash())
+	// whatever has been collected of a block-wise response belongs to this call: when it ends - by cancellation or an
+	// error in the middle of the transfer - nothing is kept (a completed transfer has removed it already)
+	defer b.receivingMessagesCache.Delete(r.Token().Hash())
 	if r.Body() == nil {
 		return do(r)
 	}
